@@ -193,6 +193,9 @@ def run(ctx, chk):
                 if msg.startswith('Overflow'):
                     ok, why = discharge_overflow(b, i, t, m, outcomes)
                     chk.ob('C14.M3', 'assert:%s:%s' % (short, msg), ok, b.where(i), why)
+                elif msg == 'BoundsCheck' and bounded_index(b, i) is not None and bounded_index(b, i)[0] < bounded_index(b, i)[1]:
+                    chk.ob('C14.M3', 'assert:%s:%s' % (short, msg), True, b.where(i),
+                           'index is at most %d (a bool / field-less enum as usize) into a table of %d' % bounded_index(b, i))
                 elif msg in ('DivisionByZero', 'RemainderByZero') and const_divisor(b, i):
                     chk.ob('C14.M3', 'assert:%s:%s' % (short, msg), True, b.where(i), 'divisor is the non-zero constant %s' % const_divisor(b, i))
                 else:
@@ -274,6 +277,68 @@ def run(ctx, chk):
         chk.ob('C14.M5', 'origin-literal:%s' % s.rstrip('\0'), good, b.where(i),
                'syscall origin literal %r is %s' % (s, 'ASCII with one trailing NUL' if good else 'NOT a valid C string'))
     chk.floor('C14.M5', 'syscall origin literals', len(lits), 3)
+
+
+def bounded_index(b, bb):
+    """for a BoundsCheck assert ending block bb: (max index, length) when the index is a value with a small closed range --
+    a field-less enum or a bool converted to usize -- and the length is a constant; None otherwise"""
+    t = b.blocks[bb]['term']
+    c = t['cond']
+    if c.get('k') not in ('copy', 'move') or c['p']['proj']:
+        return None
+
+    def single_def(l):
+        defs = [s_['r'] for blk in b.blocks for s_ in blk['stmts'] if s_['k'] == 'assign' and s_['p']['l'] == l and not s_['p']['proj']]
+        calls = [blk['term'] for blk in b.blocks if blk['term']['k'] == 'call' and blk['term']['dest']['l'] == l and not blk['term']['dest']['proj']]
+        if len(defs) == 1 and not calls:
+            return ('stmt', defs[0])
+        if len(calls) == 1 and not defs:
+            return ('call', calls[0])
+        return None
+
+    def const_int(o):
+        if o.get('k') == 'const' and ('int' in o or 'bits' in o):
+            return int(o.get('int', o.get('bits')))
+        return None
+
+    def max_of(o, depth=0):
+        """largest value the operand can take, when it comes from a bool / field-less enum"""
+        if depth > 6 or o.get('k') not in ('copy', 'move') or o['p']['proj']:
+            return const_int(o)
+        l = o['p']['l']
+        ts = b.tystr(b.locals[l]['ty'])
+        if ts == 'bool':
+            return 1
+        d = single_def(l)
+        if d is None:
+            return None
+        kind, r = d
+        if kind == 'stmt':
+            if r['k'] == 'use':
+                return max_of(r['op'], depth + 1)
+            if r['k'] == 'cast' and 'x' in r:
+                return max_of(r['x'], depth + 1)
+            if r['k'] == 'cast' and 'op' in r:
+                return max_of(r['op'], depth + 1)
+            if r['k'] == 'discr':
+                pty = b.tystr(r['p']['ty']) if 'ty' in r['p'] else None
+                a = b.crate.adts.get(pty) if pty else None
+                if a and a.get('kind') == 'enum':
+                    return max(v.get('discr', v['index']) for v in a['variants'])
+            return None
+        fn = r['func'].get('fn')
+        nm = mir.callee_name(fn) if fn else ''
+        if nm.endswith('From<bool>>::from') and r['args']:
+            return 1
+        return None
+    cl = c['p']['l']
+    for s in b.blocks[bb]['stmts']:
+        if s['k'] == 'assign' and s['p']['l'] == cl and s['r']['k'] == 'bin' and s['r']['op'] == 'Lt':
+            n = const_int(s['r']['r'])
+            m = max_of(s['r']['l'])
+            if n is not None and m is not None:
+                return m, n
+    return None
 
 
 def const_divisor(b, bb):
